@@ -424,6 +424,32 @@ def mon_c17(tr, drained=True):
     return out
 
 
+def mon_c15(tr):
+    """every reply carries the value from immediately before the operation; a refused request leaves the value unchanged"""
+    out = []
+    for i, st in enumerate(tr.steps):
+        rq = st["req"]
+        if not rq or not st["after"] or st["panic"]:
+            continue
+        kb = st["before"]["keys"].get(rq["key"])
+        ka = st["after"]["keys"].get(rq["key"])
+        vb = kb["data"] if kb else "nil"
+        va = ka["data"] if ka else "nil"
+        mine = [rp for rp in st["replies"] if rp["req"] == rq["req"]]
+        if not mine:
+            continue
+        rp = mine[0]
+        shown = "nil" if rp["data"] == "-" else rp["data"]
+        before_visible = "nil" if vb == "nil" or vb.split("/")[1] == "1" else vb.split("/")[0]
+        if rp is st["replies"][0] and shown != before_visible and not (rq["islock"] is False and rq["flag"] & 2):
+            # asynchronous grants in the same action may have run first only when the request itself was queued
+            out.append(("value:reply-not-pre-state-value", "request %d answered with value %s but the value before the operation was %s" % (rq["req"], shown, before_visible), i))
+        refused = rp["result"] in (R["TIMEOUT"], R["UNLOCK"], R["UNOWN"], R["STATE"], R["ACKW"]) or (rp["result"] == R["LOCKED"] and not rq["flag"] & 2 and rq["islock"])
+        if refused and len(st["replies"]) == 1 and ka is not None and kb is not None and va.split("/")[0] != vb.split("/")[0]:
+            out.append(("value:refused-request-changed-value", "request %d refused with %d but the value changed %s -> %s" % (rq["req"], rp["result"], vb, va), i))
+    return out
+
+
 def mon_panic(tr):
     out = []
     for i, st in enumerate(tr.steps):
@@ -432,4 +458,4 @@ def mon_panic(tr):
     return out
 
 
-MONITORS = dict(C01=mon_c01, C02=mon_c02, C03=mon_c03, C04=mon_c04, C05=mon_c05, C06=mon_c06, C17=mon_c17, PANIC=mon_panic)
+MONITORS = dict(C15=mon_c15, C01=mon_c01, C02=mon_c02, C03=mon_c03, C04=mon_c04, C05=mon_c05, C06=mon_c06, C17=mon_c17, PANIC=mon_panic)
